@@ -817,6 +817,7 @@ class Gen:
         self.local_mut = set()
         n = nunits or r.choice([3, 4, 6, 8])
         d = depth or r.choice([2, 3])
+        self.prim_alias = set()
         units = []
         for ui in range(n):
             defs, exprs = [], []
@@ -858,8 +859,27 @@ class Gen:
                     form = self.toplevel_define_fn(d)
                     defs.append(form)
                     defined_here.add(form[1])
+            if r.random() < 0.3:
+                # a global bound to a BUILT-IN procedure: later functions call it like any other function,
+                # a later unit assigns it (the callers compiled earlier must see the new procedure)
+                gp = self.fresh("gp")
+                defs.append(("define", gp, V(r.choice(["+", "*", "max", "min", "-"]))))
+                defined_here.add(gp)
+                self.funcs[gp] = (["int", "int"], "int", False)
+                self.prim_alias.add(gp)
+                self.stat("builtin-valued-global")
             for _ in range(r.randint(1, 4)):
                 exprs.append(self.toplevel_expr(d))
+            aliases = [g_ for g_ in self.prim_alias if g_ in self.funcs and g_ not in defined_here]
+            if ui >= 1 and aliases and r.random() < 0.5:
+                gp = r.choice(aliases)
+                if r.random() < 0.6:
+                    new = V(r.choice(["+", "*", "max", "min", "-"]))
+                else:
+                    a, b = self.fresh("a"), self.fresh("a")
+                    new = ("lam", [a, b], None, [A(r.choice(["+", "-"]), A("*", V(a), I(2)), V(b))])
+                exprs.insert(r.randint(0, len(exprs)), ("begin", [("set", gp, new), I(0)]))
+                self.stat("assign-builtin-valued-global")
             if ui >= 1 and r.random() < 0.12:
                 # assign (set!) a global FUNCTION defined by an earlier unit, then keep calling its callers
                 cands = [f for f, (ats, rt, var) in self.funcs.items() if not var and f not in defined_here]
